@@ -32,3 +32,20 @@ package membership
 //@ ensures.kind[C10,C15] typeis(result, "*dynamicMembership") && fresh(as(result, "*dynamicMembership")) && as(result, "*dynamicMembership").info == nil
 //@ ensures.subscribed[C10] calls(EventBus.Bus.SubscribeAsync) == 1 && arg(EventBus.Bus.SubscribeAsync, 0, topic) == helpers.MembershipChangedBusEventName && arg(EventBus.Bus.SubscribeAsync, 0, transactional) == true && isbound(ifaceval(arg(EventBus.Bus.SubscribeAsync, 0, fn)), "(*dynamicMembership).membershipChangedListener")
 //@ modifies calls(EventBus.Bus.SubscribeAsync)
+
+// Dynamic membership: the latest notification is the member's number and the group size (C09, C10).
+//@ func (*dynamicMembership).membershipChangedListener
+//@ params d m
+//@ props C09 C10
+//@ requires d != nil
+//@ ensures.latest_notification_wins[C09,C10] d.info == m
+//@ ensures.first_notification_wakes_the_waiter[C10] old(d.info) == nil ==> dcalls("go:membership.(*dynamicMembership).membershipChangedListener$1") == 1
+//@ ensures.later_notifications_wake_nobody[C10] old(d.info) != nil ==> dcalls("go:membership.(*dynamicMembership).membershipChangedListener$1") == 0
+//@ modifies d.info, calls("go:membership.(*dynamicMembership).membershipChangedListener$1")
+
+//@ func (*dynamicMembership).GetInfo
+//@ params d
+//@ props C09 C10
+//@ requires d != nil
+//@ ensures.known[C09,C10] old(d.info) != nil ==> result == old(d.info)
+//@ modifies chan(d.infoChan)
